@@ -42,8 +42,12 @@ Set(id, w) ==
   \*   - into a by-value copy of the set built BEFORE this call (the pre-state's set),
   \* each must then show exactly the form of v and re-encode to the same bytes, and the set built
   \* before the call (whose map the by-value copy shares) must still show the pre-state's form.
+  \* A built set is read-only: v.Builder() and v.Copy().Builder() hand out the caller's own builders; after
+  \* the harness has changed every id in both of them, v and the copy must still show the form of v and
+  \* encode to the same bytes.
   /\ act' = [op |-> "set", id |-> id, w |-> w, rlp_same |-> TRUE, copy_same |-> TRUE, builder_same |-> TRUE,
-             decode_into_other_same |-> TRUE, decode_into_prev_copy_same |-> TRUE, prev_unchanged |-> TRUE]
+             decode_into_other_same |-> TRUE, decode_into_prev_copy_same |-> TRUE, prev_unchanged |-> TRUE,
+             unchanged_by_derived_builders |-> TRUE]
 
 Next == \E id \in Ids, w \in Weights : Set(id, w)
 Spec == Init /\ [][Next]_vars
